@@ -111,7 +111,14 @@ LTL_MUTS = {
  'ltl_guard': ('LTL/model_checking.py', "    if not (isinstance(formula, CTLS.A)):", "    if not (isinstance(formula, CTLS.A) or isinstance(formula, CTLS.E)):", ['LTL.modelcheck']),
 }
 
-BY_PROPERTY = {'C13': [GRAPH_MUTS], 'C14': [KRIPKE_MUTS], 'C01': [CTL_MUTS], 'C05': [REWRITE_MUTS], 'C16': [BDD_MUTS], 'C03': [CTLS_MUTS], 'C02': [LTL_MUTS]}
+PARSER_MUTS = {
+ 'parser_swap_classes': ('parser.py', "        except exceptions.UnexpectedToken as e:\n            ex_class = UnexpectedToken", "        except exceptions.UnexpectedToken as e:\n            ex_class = UnexpectedCharacters", ['Parser.__call__']),
+ 'parser_pos_zero': ('parser.py', "            ex_class = UnexpectedCharacters\n            pos = int(e.pos_in_stream)", "            ex_class = UnexpectedCharacters\n            pos = 0", ['Parser.__call__']),
+ 'parser_untranslated': ('parser.py', "        except exceptions.UnexpectedCharacters as e:\n            ex_class = UnexpectedCharacters\n            pos = int(e.pos_in_stream)\n", "", ['Parser.__call__']),
+ 'parser_args_swapped': ('parser.py', "        raise ex_class(string, pos)", "        raise ex_class(pos, string)", ['Parser.__call__']),
+}
+
+BY_PROPERTY = {'C13': [GRAPH_MUTS], 'C14': [KRIPKE_MUTS], 'C01': [CTL_MUTS], 'C05': [REWRITE_MUTS], 'C16': [BDD_MUTS], 'C03': [CTLS_MUTS], 'C02': [LTL_MUTS], 'C10': [PARSER_MUTS]}
 # equivalent mutants (the change does not alter behaviour) are excluded from the requirement
 EQUIVALENT = {'sub_S0_all'}
 
